@@ -29,6 +29,9 @@
 (*                   starts downscaling before a finer one                  *)
 (*   IsotropyBound   (ii) at every level at which all axes are being / have *)
 (*                   been halved, max/min resolution <= 2                   *)
+(*   IsotropyClosest (iii) at those levels every axis is within sqrt(2) of  *)
+(*                   the axis that was finest at full resolution ("as close *)
+(*                   to isotropic as possible", the generator's docstring)  *)
 (*   PairAssemblable every consecutive pair has, on every axis, the         *)
 (*                   PyramidAssembly outcome "Correct" ("accepted by the    *)
 (*                   pyramid computation ... compatible chunk sizes").  The *)
@@ -125,6 +128,28 @@ ClauseIsoBound(c, scales) ==
      \A a, b \in Axes :
         PowLeq(c.res[a], FactorExp(scales[k], a), c.res[b], FactorExp(scales[k], b) + 1)
 
+\* (iii) docstring of fill_scales_for_dyadic_pyramid: "only the dimensions with the smallest
+\* voxel size are downscaled until the downscaled voxels are AS CLOSE TO ISOTROPIC AS POSSIBLE":
+\* with power-of-two factors that is, for every axis, a voxel size within a factor sqrt(2) of
+\* the axis that was finest at full resolution, from the level at which all axes are halved
+\* (compared on squares: r_a^2 4^Fa <= 2 r_f^2 4^Ff and conversely)
+\* r1^2 4^e1 <= 2 r2^2 4^e2 on cross-multiplied integers (P, Q < 32768: squares stay below 2^31)
+SqLeq2(r1, e1, r2, e2) ==
+  LET P == r1[1] * r2[2]
+      Q == r2[1] * r1[2]
+      D == e1 - e2
+  IN IF D >= 16 THEN FALSE
+     ELSE IF D >= 0 THEN P * P <= (2 * Q * Q) \div Pow2(2 * D)
+     ELSE IF D <= 0 - 16 THEN TRUE
+     ELSE CeilDiv(P * P, Pow2(0 - 2 * D)) <= 2 * Q * Q
+FinestAxis(c) == CHOOSE a \in Axes : \A b \in Axes : PowLeq(c.res[a], 0, c.res[b], 0)
+ClauseIsoClosest(c, scales) ==
+  LET f == FinestAxis(c) IN
+  \A k \in 1..Len(scales) : AllHalved(scales, k) =>
+     \A a \in Axes :
+        /\ SqLeq2(c.res[a], FactorExp(scales[k], a), c.res[f], FactorExp(scales[k], f))
+        /\ SqLeq2(c.res[f], FactorExp(scales[k], f), c.res[a], FactorExp(scales[k], a))
+
 PairFactor(scales, k, a) == IF scales[k].size[a] = scales[k + 1].size[a] THEN 1 ELSE 2
 PairOutcome(scales, k, a) ==
   PA!OutcomeCF(scales[k].size[a], scales[k].chunk[a], scales[k + 1].chunk[a],
@@ -151,6 +176,7 @@ PairDetail(scales) ==
 \* output lines, so verdict records must stay short): one letter per clause
 \*   K KeysDistinct   R ResolutionRule  S SizeRule      F FactorSteps
 \*   C ChunkSizes     L LastScaleFits   O IsotropyOrder B IsotropyBound
+\*   I IsotropyClosest
 \*   P PairAssemblable (followed by PairDetail, or by the worst outcome)
 \* clauses that need FactorExp are skipped when ResolutionRule fails
 FailListD(c, scales, short) ==
@@ -164,6 +190,7 @@ FailListD(c, scales, short) ==
      \o (IF ClauseLast(c, scales) THEN "" ELSE "L")
      \o (IF ~resok \/ ClauseIsoOrder(c, scales) THEN "" ELSE "O")
      \o (IF ~resok \/ ClauseIsoBound(c, scales) THEN "" ELSE "B")
+     \o (IF ~resok \/ ClauseIsoClosest(c, scales) THEN "" ELSE "I")
      \o (IF ~chok \/ ClausePairs(scales) THEN ""
          ELSE "P" \o (IF short THEN PairWorst(scales) ELSE PairDetail(scales)))
 
